@@ -51,7 +51,9 @@ func AlgebraLeaves() []*m.Crit {
 		// more operands than the array has elements: operands may repeat or be equal across numeric types / references
 		m.Contains("x", int64(1), "a", int64(1)), m.Contains("x", int64(1), uint64(1), float64(1)), m.Contains("x", fy, "$y", int64(1)), m.Contains("x", "a", "a", "a", "a"),
 		m.In("x", int64(1), int64(1), uint64(1)), m.In("x", "zz", nil, nil),
-		m.Exists("x"), m.Exists("y"), m.NotExists("x"), m.Like("x", "^a"), m.Leaf("eq", "y", int64(1)))
+		m.Exists("x"), m.Exists("y"), m.NotExists("x"), m.Like("x", "^a"), m.Leaf("eq", "y", int64(1)),
+		&m.Crit{Op: "isnil", Field: "x"}, &m.Crit{Op: "istrue", Field: "x"}, &m.Crit{Op: "isfalse", Field: "x"}, &m.Crit{Op: "isnilornotexists", Field: "x"}, &m.Crit{Op: "isnilornotexists", Field: "y"},
+		m.Leaf("neq", "x", m.FieldRef{Name: "x"}), m.Leaf("neq", "y", "$x"))
 	return out
 }
 
